@@ -21,16 +21,19 @@ Three behaviours of the unchanged tree are modelled both as coded and repaired
 Core-only imports (linked into uvmodel).
 -/
 import Uft.Model.Mcount
+import Uft.Gen.EventTab
 namespace Uft.Events
 open Uft.Mcount
 
-def ARGBUF_SIZE : Nat := 1024
-def EVTBUF_HDR : Nat := 16
-def MAX_EVENT : Nat := 4
-def ASYNC_IDX : Nat := 0xffff
-def ARG_MAX : Nat := 1020            -- ARGBUF_SIZE - sizeof(size)
-def EVENT_ID_WATCH_CPU : Nat := 100011
-def EVENT_ID_WATCH_VAR : Nat := 100012
+/- constants and the read-event table: regenerated from the sources on every run
+   (translators/events2lean.py -> Uft/Gen/EventTab.lean) -/
+def ARGBUF_SIZE : Nat := Gen.EventTab.ARGBUF_SIZE
+def EVTBUF_HDR : Nat := Gen.EventTab.EVTBUF_HDR       -- offsetof(struct mcount_event, data)
+def MAX_EVENT : Nat := Gen.EventTab.MAX_EVENT
+def ASYNC_IDX : Nat := Gen.EventTab.ASYNC_IDX
+def ARG_MAX : Nat := Gen.EventTab.ARG_MAX             -- `max_size` of save_to_argbuf
+def EVENT_ID_WATCH_CPU : Nat := Gen.EventTab.EVENT_ID_WATCH_CPU
+def EVENT_ID_WATCH_VAR : Nat := Gen.EventTab.EVENT_ID_WATCH_VAR
 
 /-- one row of `read_events[]` (libmcount/record.c) -/
 structure ReadSrc where
@@ -42,8 +45,7 @@ structure ReadSrc where
 
 /-- proc/statm, page-fault, pmu-cycle, pmu-cache, pmu-branch — in table order -/
 def readEvents : List ReadSrc :=
-  [⟨1, 100001, 100003, 3⟩, ⟨2, 100002, 100004, 2⟩, ⟨4, 100005, 100006, 2⟩,
-   ⟨8, 100007, 100008, 2⟩, ⟨16, 100009, 100010, 2⟩]
+  Gen.EventTab.readTable.map fun r => ⟨r.1, r.2.1, r.2.2.1, r.2.2.2⟩
 
 def ReadSrc.dsize (r : ReadSrc) : Nat := 8 * r.nfields
 def ReadSrc.evsize (r : ReadSrc) : Nat := EVTBUF_HDR + r.dsize
@@ -200,6 +202,10 @@ def saveWatch (cfg : ECfg) (s : ESt) (b : Frame) (ri : Nat) (o : Obs) : ESt :=
   let s1 := if cfg.watchCpu then saveWatchCpu s0 t ridx o.cpu init else s0
   saveWatchVars cfg t ridx s1 0 cfg.varSizes o.vars
 
+/-- `if (mcount_watchpoints) save_watchpoint(…)` -/
+def watchStep (cfg : ECfg) (s : ESt) (b : Frame) (ri : Nat) (o : Obs) : ESt :=
+  if cfg.watch then saveWatch cfg s b ri o else s
+
 /-! ### record_ret_stack / record_trace_data -/
 
 /-- `while (nr_events && event[0].time < timestamp) record_event(event[0])`: (written, kept) -/
@@ -307,14 +313,18 @@ def entryArea (cfg : ECfg) (f : EFrame) (matched argok : Bool) (midx : Nat) (o :
 def exitArea (cfg : ECfg) (f : EFrame) (midx : Nat) (o : Obs) : EFrame :=
   if f.readFl then saveRead cfg f (cfg.read f.b.addr) midx true o else f
 
+/-- save_watchpoint and the flush for asynchronous events at the end of the entry hook;
+    `f3` is the frame just pushed (arguments and read events saved), `s` the state without it -/
+def entryFinish (cfg : ECfg) (s : ESt) (f3 : EFrame) (rest : List EFrame) (o : Obs) : ESt :=
+  let s1 := watchStep cfg s f3.b rest.length o
+  if hasAsync s1.pend then { s1 with frames := f3 :: rest }.recorded (recordTraceE cfg false (f3 :: rest) s1.pend)
+  else { s1 with frames := f3 :: rest }
+
 /-- the part of mcount_entry_filter_record that runs for a recorded frame while tracing is on:
     save_argument, save_trigger_read, save_watchpoint and the flush for asynchronous events.
     `f` is the frame just pushed, `rest` the frames below, `s` the state without it. -/
 def entryEvents (cfg : ECfg) (s : ESt) (f : EFrame) (rest : List EFrame) (matched argok : Bool) (o : Obs) : ESt :=
-  let f3 := entryArea cfg f matched argok (rest.length + 1) o
-  let s1 := if cfg.watch then saveWatch cfg s f3.b rest.length o else s
-  if hasAsync s1.pend then { s1 with frames := f3 :: rest }.recorded (recordTraceE cfg false (f3 :: rest) s1.pend)
-  else { s1 with frames := f3 :: rest }
+  entryFinish cfg s (entryArea cfg f matched argok (rest.length + 1) o) rest o
 
 /-- mcount_entry_filter_record on the frame just pushed. `matched`: the trigger was looked up
     (FILTER_IN); `argok`: the hook supports arguments and return values (__cygprof_entry clears
@@ -343,11 +353,10 @@ def entryFilterRecordE (cfg : ECfg) (s : ESt) (tr : Trigger) (matched argok : Bo
       else { s0 with frames := f2 :: rest }
     else entryEvents cfg s0 f1 rest matched argok o
 
-/-- the tail of mcount_exit_filter_record for a recorded frame while tracing is on -/
-def exitEvents (cfg : ECfg) (s : ESt) (f : EFrame) (rest : List EFrame) (timeFilter : Nat) (retv : Bool)
+/-- save_watchpoint, then record / flush / drop; `f` the frame before, `f1` after save_trigger_read -/
+def exitFinish (cfg : ECfg) (s : ESt) (f f1 : EFrame) (rest : List EFrame) (timeFilter : Nat) (retv : Bool)
     (o : Obs) : ESt :=
-  let f1 := exitArea cfg f (rest.length + 1) o
-  let s1 := if cfg.watch then saveWatch cfg s f1.b rest.length o else s
+  let s1 := watchStep cfg s f1.b rest.length o
   let s2 := { s1 with frames := f1 :: rest }
   if (f.b.endT - f.b.start > timeFilter && (!cfg.base.callerMode || f.b.caller)) || f.b.written || f.b.trace then
     s2.recorded (recordTraceE cfg retv (f1 :: rest) s1.pend)
@@ -355,6 +364,11 @@ def exitEvents (cfg : ECfg) (s : ESt) (f : EFrame) (rest : List EFrame) (timeFil
     if hasAsync s1.pend then s2.recorded (recordTraceE cfg retv (f1 :: rest) s1.pend)
     else { s2 with pend := keepSync s1.pend (rest.length + 1) }
   else s2
+
+/-- the tail of mcount_exit_filter_record for a recorded frame while tracing is on -/
+def exitEvents (cfg : ECfg) (s : ESt) (f : EFrame) (rest : List EFrame) (timeFilter : Nat) (retv : Bool)
+    (o : Obs) : ESt :=
+  exitFinish cfg s f (exitArea cfg f (rest.length + 1) o) rest timeFilter retv o
 
 /-- mcount_exit_filter_record on the top frame (its `endT` already set); `pg`: retval != NULL -/
 def exitFilterRecordE (cfg : ECfg) (s : ESt) (pg : Bool) (o : Obs) : ESt :=
@@ -379,9 +393,10 @@ def entryE (cfg : ECfg) (k : Kind) (s : ESt) (addr now : Nat) (o : Obs) : ESt ×
   let tr := c.2.2
   match k with
   | .pg =>
-    if c.1 != .in_ then (s1, false) else
-    let f : EFrame := { b := { addr := addr, start := now, depth := s1.recordIdx } }
-    (entryFilterRecordE cfg { s1 with frames := f :: s1.frames } tr true true o, true)
+    -- a filtered-out call whose trigger changed the filter state gets a NORECORD frame (repair of F4)
+    if c.1 == .rstack || (c.1 != .in_ && !(cfg.base.f4fixed && tr.changesState)) then (s1, false) else
+    let f : EFrame := { b := { addr := addr, start := now, depth := s1.recordIdx, norecord := c.1 != .in_ } }
+    (entryFilterRecordE cfg { s1 with frames := f :: s1.frames } tr (c.1 == .in_) (c.1 == .in_) o, true)
   | .cyg =>
     if c.1 == .rstack then ({ s1 with over := s1.over + 1 }, true) else
     let isIn := c.1 == .in_
